@@ -4,7 +4,7 @@ import Mathlib.Tactic.Positivity
 /-!
 # `Vec2::length` / `Vec3::length` (extracted, `Gen/Leaf.lean`) are the non-negative square root of `v·v`
 
-Exact semantics of `length()` including the `lengthTiny` arm (all 5 / 65 paths), for any square
+Exact semantics of `length()` including the `lengthTiny` arm (all 9 / 129 paths, both the underflow and the overflow guard), for any square
 root satisfying `SqrtSpec`.  Used by C12 to discharge the `LenSpec` hypotheses of the Gram-Schmidt lemmas.
 -/
 namespace ImathVerif.SHRT
@@ -29,24 +29,34 @@ theorem tiny2 {sqrt : α → α} (hs : SqrtSpec sqrt) (a b : α) (hb : |b| ≠ 0
   field_simp
   nlinarith [e1, e2]
 
-theorem V2_length_spec {tmin : α} {sqrt : α → α} (hs : SqrtSpec sqrt) : LenSpec2 (Gen.V2.length tmin sqrt) := by
+theorem V2_length_spec {tmin tmax : α} {sqrt : α → α} (hs : SqrtSpec sqrt) : LenSpec2 (Gen.V2.length tmin tmax sqrt) := by
   intro v
   obtain ⟨x, y⟩ := v
   have hxy : 0 ≤ x * x + y * y := add_nonneg (mul_self_nonneg _) (mul_self_nonneg _)
+  -- the scaled (lengthTiny) sub-tree, which the code enters when the sum of squares under- OR overflows
+  have tiny : ∀ (r : α), r = (if |x| < |y| then (if |y| = 0 then 0 else |y| * sqrt (|x| / |y| * (|x| / |y|) + |y| / |y| * (|y| / |y|)))
+      else (if |x| = 0 then 0 else |x| * sqrt (|x| / |x| * (|x| / |x|) + |y| / |x| * (|y| / |x|)))) →
+      0 ≤ r ∧ r * r = x * x + y * y := by
+    intro r hr
+    subst hr
+    split_ifs with h2 h3 h4
+    · rw [h3] at h2; exact absurd h2 (not_lt.mpr (abs_nonneg x))
+    · exact tiny2 hs x y h3
+    · have hy : |y| ≤ 0 := by rw [← h4]; exact not_lt.mp h2
+      have hy0 : y = 0 := abs_eq_zero.mp (le_antisymm hy (abs_nonneg y))
+      have hx0 : x = 0 := abs_eq_zero.mp h4
+      simp [hx0, hy0]
+    · have := tiny2 hs y x h4
+      rw [add_comm (y * y)] at this
+      rw [add_comm (|x| / |x| * (|x| / |x|))]
+      exact this
   simp only [Gen.V2.length, dot2, sabs_eq_abs]
-  split_ifs with h1 h2 h3 h4
-  · rw [h3] at h2; exact absurd h2 (not_lt.mpr (abs_nonneg x))
-  · have := tiny2 hs x y h3
-    exact this
-  · have hy : |y| ≤ 0 := by rw [← h4]; exact not_lt.mp h2
-    have hy0 : y = 0 := abs_eq_zero.mp (le_antisymm hy (abs_nonneg y))
-    have hx0 : x = 0 := abs_eq_zero.mp h4
-    simp [hx0, hy0]
-  · have := tiny2 hs y x h4
-    rw [add_comm (y * y)] at this
-    rw [add_comm (|x| / |x| * (|x| / |x|))]
-    exact this
-  · exact hs _ hxy
+  by_cases h1 : x * x + y * y < 2 * tmin
+  · rw [if_pos h1]; exact tiny _ rfl
+  · rw [if_neg h1]
+    by_cases h2 : tmax < x * x + y * y
+    · rw [if_pos h2]; exact tiny _ rfl
+    · rw [if_neg h2]; exact hs _ hxy
 
 theorem tiny3 {sqrt : α → α} (hs : SqrtSpec sqrt) (X Y Z m S : α) (hm : 0 < m) (hS : X * X + Y * Y + Z * Z = S) :
     0 ≤ m * sqrt (X / m * (X / m) + Y / m * (Y / m) + Z / m * (Z / m)) ∧
@@ -61,20 +71,34 @@ theorem tiny3 {sqrt : α → α} (hs : SqrtSpec sqrt) (X Y Z m S : α) (hm : 0 <
   have := hm.ne'
   field_simp
 
-set_option maxHeartbeats 8000000 in
-theorem V3_length_spec {tmin : α} {sqrt : α → α} (hs : SqrtSpec sqrt) : LenSpec3 (Gen.V3.length tmin sqrt) := by
-  intro v
-  obtain ⟨x, y, z⟩ := v
-  have hpos : 0 ≤ x * x + y * y + z * z :=
-    add_nonneg (add_nonneg (mul_self_nonneg _) (mul_self_nonneg _)) (mul_self_nonneg _)
-  simp only [Gen.V3.length, dot3]
-  split_ifs <;> first
-    | exact hs _ hpos
+/-- closes `0 ≤ T ∧ T * T = x*x + y*y + z*z` for the scaled (`lengthTiny`) sub-tree `T` of `Vec3::length` -/
+set_option hygiene false in
+local macro "tiny3tac " hs:ident : tactic =>
+  `(tactic| (split_ifs <;> first
     | (have hx : x = 0 := by linarith
        have hy : y = 0 := by linarith
        have hz : z = 0 := by linarith
        subst hx hy hz; simp)
-    | (refine tiny3 hs _ _ _ _ _ ?_ ?_
+    | (refine tiny3 $hs _ _ _ _ _ ?_ ?_
        · apply lt_of_le_of_ne (by linarith); intro hh; simp_all
-       · ring)
+       · ring)))
+
+set_option maxHeartbeats 32000000 in
+theorem V3_length_spec {tmin tmax : α} {sqrt : α → α} (hs : SqrtSpec sqrt) : LenSpec3 (Gen.V3.length tmin tmax sqrt) := by
+  intro v
+  obtain ⟨x, y, z⟩ := v
+  have hpos : 0 ≤ x * x + y * y + z * z :=
+    add_nonneg (add_nonneg (mul_self_nonneg _) (mul_self_nonneg _)) (mul_self_nonneg _)
+  simp (config := {maxSteps := 20000000}) only [Gen.V3.length, dot3]
+  -- the code enters the scaled sub-tree when the sum of squares under- OR overflows
+  by_cases h1 : x * x + y * y + z * z < 2 * tmin
+  · rw [if_pos h1]
+    clear h1
+    tiny3tac hs
+  · rw [if_neg h1]
+    by_cases h2 : tmax < x * x + y * y + z * z
+    · rw [if_pos h2]
+      clear h1 h2
+      tiny3tac hs
+    · rw [if_neg h2]; exact hs _ hpos
 end ImathVerif.SHRT
